@@ -143,21 +143,25 @@ AllowedSet(fails, n, failable) == IF Ambiguous(fails, n, failable) THEN {"accept
                                   ELSE IF Verdict(fails, n, failable) THEN {"accept"} ELSE {"reject"}
 GradeOf(outcome, credit) == IF outcome = "accept" THEN credit ELSE Zero
 
-\* es, ss : sequences (length n) of expected / student values at the n samples
-Judge(es, ss, tol, n, failable, credit) ==
-  LET marg == [i \in 1..n |-> Margin(es[i], ss[i], tol)]
-      fails == Cardinality({i \in 1..n : ~Agrees(marg[i])})
+\* marg : the margin class of each of the n samples.  The verdict counts the disagreeing samples among ALL n
+\* configured samples, whatever their order and whether or not the author's value varies from sample to sample.
+JudgeM(marg, n, failable, credit) ==
+  LET fails == Cardinality({i \in 1..n : ~Agrees(marg[i])})
       allowed == AllowedSet(fails, n, failable)
   IN [allowed |-> allowed, fails |-> fails, marg |-> marg,
       grades |-> {GradeOf(o, credit) : o \in allowed},
       robust |-> \A i \in 1..n : marg[i] # "near",
       edges |-> \E i \in 1..n : marg[i] = "edge"]
+\* es, ss : sequences (length n) of expected / student values at the n samples
+Judge(es, ss, tol, n, failable, credit) == JudgeM([i \in 1..n |-> Margin(es[i], ss[i], tol)], n, failable, credit)
 
 (* ------------------------------------------------------------------ student forms (x = author's value at the sample)
    "same" x        "add" x + p (literal p)      "addvar" x + p (p a second sampled variable)
    "mul"  x * (1 + p)   (p a real scalar)       "const"  p (ignores x)
-   "neg" -x    "abs" |x| (real scalars)    "sq" x^2 (scalars)    "conj"    "re"    "trans" (matrices)          *)
-Forms == {"same", "add", "addvar", "mul", "const", "neg", "abs", "sq", "conj", "re", "trans"}
+   "neg" -x    "abs" |x| (real scalars)    "sq" x^2 (scalars)    "conj"    "re"    "trans" (matrices)
+   "sgn"  p * |x| / x  (p where x > 0, -p where x < 0; real scalar x # 0)     "times"  p * x  (p a real scalar)
+   "plus0"  p + 0 * x  (always p, but written with the variable)                                            *)
+Forms == {"same", "add", "addvar", "mul", "const", "neg", "abs", "sq", "conj", "re", "trans", "sgn", "times", "plus0"}
 Student(form, x, p) ==
   CASE form = "same" -> x
     [] form \in {"add", "addvar"} -> VAdd(x, p)
@@ -169,6 +173,9 @@ Student(form, x, p) ==
     [] form = "conj" -> VConj(x)
     [] form = "re" -> VRe(x)
     [] form = "trans" -> VTrans(x)
+    [] form = "sgn" -> VScale(<<QSign(RealPart(x)), 1>>, p)
+    [] form = "times" -> VScale(RealPart(p), x)
+    [] form = "plus0" -> p
 \* the form is meaningful for this value (no NaN, right type and shape)
 Defined(form, x, p) ==
   CASE form = "same" -> TRUE
@@ -181,10 +188,34 @@ Defined(form, x, p) ==
     [] form = "sq" -> IsScalar(x)
     [] form \in {"conj", "re"} -> TRUE
     [] form = "trans" -> Len(x.shape) = 2 /\ x.shape[1] = x.shape[2]
+    [] form = "sgn" -> IsRealScalar(x) /\ ~IsInf(x) /\ RealPart(x)[1] # 0 /\ ~IsInf(p)
+    [] form = "times" -> IsRealScalar(p) /\ ~IsInf(p) /\ ~(IsInf(x) /\ RealPart(p)[1] = 0)
+    [] form = "plus0" -> ~IsInf(x) /\ ~IsInf(p)
 
-\* a whole case: answer 'x', n sampled values xs, student form with per-sample parameters ps
-JudgeForm(xs, form, ps, tol, n, failable, credit) ==
-  Judge(xs, [i \in 1..n |-> Student(form, xs[i], ps[i])], tol, n, failable, credit)
+(* The author's answer as a function of the sampled variable x:
+     [form |-> "id"]              the answer is the variable itself ('x')
+     [form |-> "const", k |-> v]  the answer is a constant expression (a number, 2*pi/pi, ...): the same value v at
+                                  every sample, while the student's formula may still use the variable           *)
+IdAns == [form |-> "id", k |-> Real(Zero), sp |-> "lit"]
+ConstAns(v, sp) == [form |-> "const", k |-> v, sp |-> sp]
+Expected(ans, x) == IF ans.form = "id" THEN x ELSE ans.k
+DefinedAns(ans, form, x, p) == Defined(form, x, p) /\ Student(form, x, p).shape = Expected(ans, x).shape
+                               /\ (ans.form = "const" => ~IsInf(x))
+
+(* x * (1 + eps) against x under a percentage tolerance: |e - s| / |e| = |eps| whatever x # 0 is (scale invariance),
+   so the sample is classified on the pair (1, 1 + eps).  This keeps percentages such as 0.004 % usable for complex
+   numbers and arrays, whose squared norms would otherwise leave TLC's integer range. *)
+MarginMulPct(x, eps, tol) == IF Norm2(x)[1] = 0 THEN "edge0" ELSE Margin(Real(One), Real(QAdd(One, eps)), tol)
+SampleMargin(ans, form, x, p, tol) ==
+  IF ans.form = "id" /\ form = "mul" /\ tol.kind = "pct" /\ ~IsInf(x) /\ ~IsRealScalar(x)
+  THEN MarginMulPct(x, RealPart(p), tol)
+  ELSE Margin(Expected(ans, x), Student(form, x, p), tol)
+
+\* a whole case: author's answer ans, n sampled values xs, student form with per-sample parameters ps
+JudgeAns(ans, xs, form, ps, tol, n, failable, credit) ==
+  JudgeM([i \in 1..n |-> SampleMargin(ans, form, xs[i], ps[i], tol)], n, failable, credit)
+\* the same with the answer 'x'
+JudgeForm(xs, form, ps, tol, n, failable, credit) == JudgeAns(IdAns, xs, form, ps, tol, n, failable, credit)
 
 (* ------------------------------------------------------------------ expression trees and rewrites
    [op |-> "var", name |-> "x"]   [op |-> "num", v |-> q]   [op |-> "add" | "sub" | "mul", a, b]
@@ -273,6 +304,15 @@ LawFailableMonotone(fails, n, failable) == "accept" \in AllowedSet(fails, n, fai
 LawAllMiss(n, failable) == failable < n => AllowedSet(n, n, failable) = {"reject"}
 LawNoMiss(n, failable) == AllowedSet(0, n, failable) = {"accept"}
 LawSingleSample(fails, failable) == AllowedSet(fails, 1, failable) = (IF fails = 0 THEN {"accept"} ELSE {"reject"})
+\* the order of the samples is irrelevant: judging the reversed sequences gives the same verdict and failure count
+Rev(sq) == [i \in 1..Len(sq) |-> sq[Len(sq) + 1 - i]]
+LawOrderIrrelevant(marg, n, failable, credit) ==
+  LET a == JudgeM(marg, n, failable, credit)  b == JudgeM(Rev(marg), n, failable, credit)
+  IN a.allowed = b.allowed /\ a.fails = b.fails /\ a.grades = b.grades
+\* the scale-invariance shortcut classifies like the general definition (where the general one is computable)
+LawMulShortcut(x, eps, tol) == tol.kind = "pct" /\ ~IsInf(x)
+                                 => LET a == MarginMulPct(x, eps, tol)  b == Margin(x, VScale(QAdd(One, eps), x), tol)
+                                    IN a = b \/ "near" \in {a, b}     \* (the two guard bands differ by 1e-5)
 \* safe arithmetic is arithmetic
 LawSafeArith(a, b) == /\ QAdd(a, b) = Add(a, b) /\ QMul(a, b) = Mul(a, b)
                       /\ (a[1] >= 0 /\ b[1] >= 0 => ((QCmp(a, b) <= 0) <=> Leq(a, b)) /\ ((QCmp(a, b) < 0) <=> Lt(a, b)))
